@@ -99,6 +99,9 @@ func (c *Ctx) resolveType(te *TypeExpr, pkg *types.Package) types.Type {
 		}
 		return nil
 	}
+	if te.Pkg == "" && te.Name == "any" {
+		return types.NewInterfaceType(nil, nil)
+	}
 	if te.Pkg != "" {
 		// imported package by name
 		if pkg != nil {
